@@ -1,6 +1,10 @@
 package main
 
-import "strings"
+import (
+	"encoding/json"
+	"os"
+	"strings"
+)
 
 func lastLineWith(out, marker string) string {
 	res := ""
@@ -10,4 +14,19 @@ func lastLineWith(out, marker string) string {
 		}
 	}
 	return res
+}
+
+// replayProperty returns the "property" field of a replay file ("" if unreadable).
+func replayProperty(path string) string {
+	b, err := os.ReadFile(path)
+	if err != nil {
+		return ""
+	}
+	var r struct {
+		Property string `json:"property"`
+	}
+	if json.Unmarshal(b, &r) != nil {
+		return ""
+	}
+	return r.Property
 }
